@@ -125,9 +125,10 @@ class Decimal(SimpleModel):
 
             # ... unless the number of digits is what's being customized.
             if td is not None:
-                kwargs['max_str_len'] = td + 2
+                kwargs['max_str_len'] = td + 3
                 # + 1 for decimal separator
                 # + 1 for negative sign
+                # + 1 for the leading zero of numbers like -0.999
 
         else:
             kwargs['max_str_len'] = msl
